@@ -213,7 +213,9 @@ impl Tbl {
         WriteParams { max_rows_per_file: self.max_rows_per_file, max_rows_per_group: 1024, mode, data_storage_version: Some(self.ver), enable_stable_row_ids: self.stable, ..Default::default() }
     }
     pub async fn create(rng: &mut Rng, stable: bool) -> Tbl {
-        let ver = if stable { *rng.pick(&[LanceFileVersion::V2_0, LanceFileVersion::V2_1]) } else { *rng.pick(&[LanceFileVersion::Legacy, LanceFileVersion::V2_0, LanceFileVersion::V2_0, LanceFileVersion::V2_1]) };
+        // storage >= 2.0: the legacy (0.1) format loses the nulls of primitive columns on read (documented
+        // normalisation), and a rewrite persists what the scan showed
+        let ver = *rng.pick(&[LanceFileVersion::V2_0, LanceFileVersion::V2_0, LanceFileVersion::V2_1]);
         let max_rows_per_file = *rng.pick(&[2usize, 3, 4, 5, 8]);
         let n = rng.range(3, 26) as usize;
         let dir = tempfile::tempdir().unwrap();
